@@ -17,6 +17,7 @@ from pycoin.merkle import merkle
 from pycoin.encoding.hash import double_sha256
 
 PROP = "C16"
+EXTRA_PROPS = ["C16compose"]   # composition with the C07 transaction and C14 block/header models
 DRIVER = "C16"
 INTERACTIVE = True
 RULE = ("correspondence: one driver line per call of pack_struct / unpack_struct (Streamer), network.message.pack / parse, "
